@@ -187,7 +187,16 @@ PROPS = {
     ], layers={"quick": ["c16-calls", "c16-history"], "thorough": ["c16-calls", "c16-history"]}),
 }
 
+LAYER_UNIT = {"c06-sched": "c06", "c03-select": "c03", "c03-lookuphost": "c03", "c04-add": "c04", "c04-weightcmd": "c04", "c05-commands": "c05",
+              "c07-request": "c07", "c07-response": "c07", "c08-headers": "c08", "c08-websocket": "c08", "c09-tunnels": "c09", "c09-websocket": "c09-ws",
+              "c10-sni": "c10", "c12-rules": "c12-rules", "c13-inputs": "c13", "c13-sched": "c13", "c14-registrations": "c14", "c15-sources": "c15-config",
+              "c15-robust": "c15-config", "c16-calls": "c16", "c16-history": "c16", "c19-config": "c19", "c19-behaviour": "c19", "c20-fields": "c20-logger",
+              "c20-formats": "c20-logger", "c20-atoi": "c20-logger", "c01-health": "c01-health"}
+
 def layer_unit(pid, layer):
+    layer = (layer or "").replace(".race", "")
+    if layer in LAYER_UNIT:
+        return LAYER_UNIT[layer]
     for u in PROPS[pid]["units"]:
         if layer and layer.startswith(u["name"]):
             return u["name"]
